@@ -819,6 +819,11 @@ func (e *Engine) execSend(s *State, x *ssa.Send) {
 	ch := e.val(s, x.Chan)
 	c := ch.L[0]
 	e.containerWrite(s, ch, e.val(s, x.X), x)
+	if strings.Contains(e.C.Containers[ch.Src], "sendlocked") {
+		held := e.guardHeldFor(s, ch) || s.FreshRefs[c]
+		e.structural(e.oblName(s, x, "send-closed")+"/sendlocked", "guarded-access", x.Pos(), "send on "+ch.Src+" happens under its guard lock", held, "send on a sendlocked channel without the lock at "+e.P.Pos(x.Pos()))
+	}
+	e.chanInterfere(s, ch)
 	cl := e.heapGet(s, "CL!", "(Array Int Int)")
 	cc := e.heapGet(s, "CC!", "(Array Int Int)")
 	room := app("<", app("select", cl, c), app("select", cc, c))
@@ -846,6 +851,13 @@ func (e *Engine) containerWrite(s *State, cont, v *Val, in ssa.Instruction) {
 }
 
 func (e *Engine) execRecv(s *State, x *ssa.UnOp) []*State {
+	chv := e.val(s, x.X)
+	e.chanInterfere(s, chv)
+	{
+		cl := e.heapGet(s, "CL!", "(Array Int Int)")
+		cur := app("select", cl, chv.L[0])
+		e.heapSet(s, "CL!", "(Array Int Int)", app("store", cl, chv.L[0], app("ite", app(">=", cur, "1"), app("-", cur, "1"), cur)))
+	}
 	rev := Event{Kind: "recv", What: x.X.Name(), Pos: e.P.Pos(x.Pos()), Instr: x, Blocking: true, Extra: map[string]string{}}
 	defer func() { e.event(s, rev) }()
 	var et types.Type
@@ -929,12 +941,35 @@ func (e *Engine) execSelect(s *State, x *ssa.Select) []*State {
 	for _, c := range r.Tup {
 		r.L = append(r.L, c.L...)
 	}
-	for _, st := range x.States {
+	// channel lengths: interference first, then the effect of the chosen case
+	for si, st := range x.States {
+		chv := e.val(s, st.Chan)
+		e.chanInterfere(s, chv)
+		cl := e.heapGet(s, "CL!", "(Array Int Int)")
+		cc := e.heapGet(s, "CC!", "(Array Int Int)")
+		cx := e.heapGet(s, "CX!", "(Array Int Bool)")
+		c := chv.L[0]
+		chosen := eq(idx, num(int64(si)))
+		cur := app("select", cl, c)
 		if st.Dir == types.SendOnly {
 			e.escape(s, st.Send.Type(), e.val(s, st.Send))
-			cl := e.heapGet(s, "CL!", "(Array Int Int)")
-			_ = cl
-			e.heapHavoc(s, "CL!")
+			if strings.Contains(e.C.Containers[chv.Src], "sendlocked") {
+				held := e.guardHeldFor(s, chv) || s.FreshRefs[c]
+				e.structural(e.oblName(s, x, "guarded-access")+"/sendlocked", "guarded-access", x.Pos(), "send on "+chv.Src+" happens under its guard lock", held, "send on a sendlocked channel without the lock at "+e.P.Pos(x.Pos()))
+			}
+			// chosen => there was room; not chosen in a non-blocking select => it was full (when it is the only case)
+			s.assume(implies(chosen, app("<", cur, app("select", cc, c))))
+			if !x.Blocking && len(x.States) == 1 {
+				s.assume(implies(eq(idx, "(- 1)"), app(">=", cur, app("select", cc, c))))
+			}
+			e.heapSet(s, "CL!", "(Array Int Int)", app("store", cl, c, app("ite", chosen, app("+", cur, "1"), cur)))
+		} else {
+			// chosen => something was buffered or the channel is closed; default => nothing was buffered
+			s.assume(implies(chosen, or(app(">=", cur, "1"), app("select", cx, c), eq(app("select", cc, c), "0"))))
+			if !x.Blocking && len(x.States) == 1 {
+				s.assume(implies(eq(idx, "(- 1)"), eq(cur, "0")))
+			}
+			e.heapSet(s, "CL!", "(Array Int Int)", app("store", cl, c, app("ite", and(chosen, app(">=", cur, "1")), app("-", cur, "1"), cur)))
 		}
 	}
 	s.top().Vals[x] = r
@@ -1004,4 +1039,45 @@ func (e *Engine) mapVals(s *State, mt *types.Map, m string) string {
 	lf := e.leaves(mt.Elem())[0]
 	h := e.heapGet(s, e.mapValName(mt, lf.Path), "(Array Int (Array "+ks+" "+lf.Sort+"))")
 	return app("select", h, m)
+}
+
+// ---- channel-length interference ------------------------------------------------------------------
+// The buffered length of a channel is exact while the channel is private to this activation. For a
+// channel held in a field declared "sendlocked" (every send happens with the guard lock of its struct
+// held - checked at each send), other goroutines can only receive while we hold that lock, so the
+// length may only have decreased since it was last known. For any other shared channel the length is
+// unknown at every operation.
+func (e *Engine) chanInterfere(s *State, ch *Val) {
+	c := ch.L[0]
+	if s.FreshRefs[c] {
+		return
+	}
+	cl := e.heapGet(s, "CL!", "(Array Int Int)")
+	n := e.declare(s, "clen", "Int")
+	s.assume(app(">=", n, "0"))
+	if strings.Contains(e.C.Containers[ch.Src], "sendlocked") && e.guardHeldFor(s, ch) {
+		s.assume(app("<=", n, app("select", cl, c)))
+	}
+	e.heapSet(s, "CL!", "(Array Int Int)", app("store", cl, c, n))
+}
+
+// guardHeldFor: is the guard lock protecting the field this value was loaded from held (any mode)?
+func (e *Engine) guardHeldFor(s *State, v *Val) bool {
+	if v.Src == "" {
+		return false
+	}
+	i := strings.LastIndex(v.Src, ".")
+	skey, field := v.Src[:i], v.Src[i+1:]
+	for _, g := range e.C.Guards {
+		if g.Struct != skey {
+			continue
+		}
+		for _, f := range g.Fields {
+			if f == field {
+				_, held := s.Held["F!"+skey+"!."+g.Lock+"@"+v.SrcBase]
+				return held
+			}
+		}
+	}
+	return false
 }
